@@ -21,6 +21,12 @@ var (
 		hx("3daf3e16274a042415b2ff986a1b4a58182e8eb134d1a3339f4f81177f17d2bf"),
 		hx("504d1929c96cb4aa1986eb4d30299daa2e6a198a463da9cb937987acf12c3205"),
 	}
+	// the same for SM2 encryption over NIST P-256 (math/big path, encryptLegacy) to the public key [zeroTd]G of that curve
+	zeroTNIST = []*big.Int{
+		hx("6534d64d5d36d6cda0e4145e2774d31e2e15ed645ff073b501634bbb921bba0f"),
+		hx("6b1387844864aac81932d292a2c35930c35dcb842592256671785a1c0e5d6314"),
+		hx("7d87523fa511b4a02ea93931df373b73bdf7ccb1464d4403cd5e8f613b6db7f3"),
+	}
 	zeroKke  = hx("0001EDEE3778F441F8DEA3D9FA0ACC4E07EE36C93F9A08618AF4AD85CEDE1C22")
 	zeroKSM9 = []*big.Int{
 		hx("326c4a7e1603d13774d3855b4a539465c5eae6feb6a2637c002a1c82a91e45ae"),
@@ -37,6 +43,12 @@ func retrySetup(x *mon.Ctx) {
 		p := ec.Mul(k, q)
 		if t := refsm3.KDF(append(b32(p.X), b32(p.Y)...), 1); t[0] != 0 {
 			x.HarnessError("c12: stored SM2 zero-t nonce %x does not give t=0 under the reference", k)
+		}
+	}
+	px, py := elliptic.P256().ScalarBaseMult(b32(zeroTd))
+	for _, k := range zeroTNIST {
+		if t := refsm3.KDF(nistShared(k, px, py), 1); t[0] != 0 {
+			x.HarnessError("c12: stored P-256 zero-t nonce %x does not give t=0 under the reference", k)
 		}
 	}
 	var err error
@@ -106,6 +118,9 @@ func retrySign(e *env, c *mon.Case, curve, cond string) {
 	if c.R.Bool() {
 		variant = "sm2.Sign->(r,s)"
 	}
+	if curve != "sm2" && (pureGo() || c.R.Bool()) {
+		variant += curveParams
+	}
 	for _, cand := range sm2Ops() {
 		if (curve == "sm2" && cand.name == "sm2.sign") || (curve != "sm2" && cand.name == "sm2.sign.nistp256") {
 			o = cand
@@ -154,6 +169,27 @@ func retryEncrypt(e *env, c *mon.Case, i int, follow string) {
 	if c.Call(o.name+" "+variant, func() { out = call.run(reader{src}) }) {
 		if v := checkHealthy(c, o, variant, &out, src, 1); v != nil {
 			c.Class("retry/sm2.encrypt/t=0/%s/next=%s", variant, follow)
+			c.Event("forced_retries_observed", v.retries)
+		}
+	}
+}
+
+// retryLegacyEncrypt: the same on the math/big path (encryptLegacy, any curve but SM2's).
+func retryLegacyEncrypt(e *env, c *mon.Case, i int, follow string) {
+	o := opByName("sm2.encrypt.nistp256")
+	variant := o.variants[c.R.Intn(len(o.variants))]
+	call := legacyEncryptCallOn(nil, zeroTd, c.R.Bytes(1), variant)
+	stream := wrapStream(c.R, o.rule, zeroTNIST[i])
+	if follow == "one" {
+		stream = append(append(b32(zeroTNIST[i]), b32(one)...), c.R.Bytes(32*tailBlocks)...)
+	}
+	c.Detail("inputs", call.inputs)
+	c.Detail("stream_head", head(stream, 32*8))
+	src := mon.NewScript(stream)
+	var out outcome
+	if c.Call(o.name+" "+variant, func() { out = call.run(reader{src}) }) {
+		if v := checkHealthy(c, o, variant, &out, src, 1); v != nil {
+			c.Class("retry/sm2.encrypt.nistp256/t=0/%s/next=%s", variant, follow)
 			c.Event("forced_retries_observed", v.retries)
 		}
 	}
